@@ -1,6 +1,6 @@
 (* C18 — exported metrics account exactly for what happened. *)
 From BMC Require Import Base Prim Layers Packet Conn ConnProofs Metrics.
-From BMCProps Require Import Tie.
+From BMCProps Require Import TieConn.
 
 (* inside one command: the retry closure's counters, placed as in the Go code (first-attempt flag, one
    responses increment per decoded response incl. temporary ones), satisfy: retries = transmissions - 1,
